@@ -63,6 +63,7 @@ func run(c *vf.Ctx) {
 	t0 = time.Now()
 	clearsignGrammar(c, g)
 	phase["C_clearsign"] = time.Since(t0).Seconds()
+	gpgCleartextFixtures(c)
 	c.Set("phase_seconds", phase)
 }
 
@@ -567,7 +568,7 @@ func clearsignGrammar(c *vf.Ctx, g *pgpfix.GPG) {
 	starts := []string{"", "-", "- ", "-----", "From ", "text", "- x", "-----BEGIN PGP SIGNATURE-----"}
 	starts3 := starts[:6] // three-line texts (quick): the six starts of the design grammar
 	if c.Thorough {
-		starts = append(starts, "-text", "- -", " -", "From", "-----BEGIN PGP SIGNED MESSAGE-----", "été")
+		starts = append(starts, "-text", "- -", "-----BEGIN PGP SIGNED MESSAGE-----", "été")
 		starts3 = starts
 	}
 	trails := []string{"", " ", "\t", " \t"}
@@ -830,4 +831,44 @@ func sameLines(a, b [][]byte) bool {
 		}
 	}
 	return true
+}
+
+// ---------------------------------------------------------------- D
+
+// gpgCleartextFixtures: cleartext messages produced by GnuPG 2.2.40 (committed fixtures; GnuPG also
+// dash-escapes "From " lines) are decoded by clearsign.Decode to the canonical text and verify.
+func gpgCleartextFixtures(c *vf.Ctx) {
+	signers, ring := loadSigners(c)
+	lines := pgpref.CleartextLines(pgpfix.Plain())
+	for _, sg := range signers {
+		msg := pgpfix.Msg("clear." + sg.name + ".asc")
+		// prefix and trailing data must be skipped / returned
+		for vi, in := range [][]byte{msg, append([]byte("junk before\n\n"), append(append([]byte{}, msg...), "trailing text\n"...)...)} {
+			var b *clearsign.Block
+			var rest []byte
+			c.Eval(1)
+			if p, pv, st := vf.Protect(func() { b, rest = clearsign.Decode(in) }); p {
+				c.Violation("clearsign.Decode panics on a GnuPG cleartext message", map[string]any{"signer": sg.name, "panic": fmt.Sprint(pv), "stack": st})
+				continue
+			}
+			if b == nil {
+				c.Violation("clearsign.Decode does not find a GnuPG cleartext message", map[string]any{"signer": sg.name, "variant": vi})
+				continue
+			}
+			if !bytes.Equal(b.Plaintext, pgpref.CleartextPlain(lines)) || !bytes.Equal(b.Bytes, pgpref.CleartextSigned(lines)) {
+				c.Violation("clearsign.Decode of a GnuPG cleartext message does not return the canonical text with dash-escaping undone", map[string]any{"signer": sg.name, "got": string(b.Plaintext)})
+				continue
+			}
+			if vi == 1 && string(rest) != "trailing text\n" {
+				c.Violation("clearsign.Decode returns a wrong rest", map[string]any{"signer": sg.name, "rest": string(rest)})
+			}
+			who, err := openpgp.CheckDetachedSignature(ring, bytes.NewReader(b.Bytes), b.ArmoredSignature.Body)
+			if err != nil || who != sg.ent {
+				c.Violation("signature of a GnuPG cleartext message does not verify after clearsign.Decode", map[string]any{"signer": sg.name, "err": fmt.Sprint(err)})
+				continue
+			}
+			c.Nontrivial(fmt.Sprintf("D/%s/%d", sg.name, vi))
+			c.Outcome("gpg cleartext fixture decoded and verified")
+		}
+	}
 }
